@@ -180,3 +180,17 @@ Definition reader_end_class (cause : Z) (o_cb : list Z) (o_done o_ctx o_ops o_la
     let c := close_class o_cb o_done true false o_ops true in
     if negb (N.eqb c 0) then c
     else if negb o_late then 1%N else 0%N.
+
+(* stopping a datagram server while the exit path of Serve runs as well (whichever of the two took the peer table,
+   whichever finishes first): once every Stop call and Serve have returned, every on-close callback of every peer
+   connection the server handed out has run exactly once (3), every Done() is completed (4), no Stop call hangs or
+   panics (5), Serve has returned (7). *)
+Definition stop_race_class (o_cb : list Z) (o_done o_closers o_panic o_serve : bool) : N :=
+  close_class o_cb o_done o_closers o_panic true o_serve.
+
+(* a confirmable request / ping is waiting while the connection's housekeeping works on it (retransmits it, gives it
+   up).  trig 0 / 1 / 2: its context is cancelled / expires / the connection is closed -- the call returns (1), not
+   with success (2); trig 4: the peer answers -- the call returns.  A call made afterwards returns as well (1). *)
+Definition tick_class (trig : Z) (o_ret : bool) (o_err : Z) (o_late : bool) : N :=
+  let c := op_class (negb (trig =? 4)) o_ret o_err in
+  if negb (N.eqb c 0) then c else if negb o_late then 1%N else 0%N.
